@@ -79,6 +79,8 @@ def freeze(x):
 def seed_tuple(seed) -> tuple:
     import numpy as np
 
+    if isinstance(seed, (tuple, list)):
+        return freeze(seed) if isinstance(seed, list) else seed  # user-supplied symbolic seed value
     return tuple(int(x) for x in np.asarray(seed).ravel())
 
 
@@ -125,10 +127,16 @@ class Built:
                 self.objs.append(v), self.out.append(v.var_value_node), self.cache_node.append(None)
             elif k in ("calc", "tcalc", "wvar"):
                 cls = lsl.TransientCalc if k == "tcalc" else lsl.Calc
-                ins = [self.objs[j] for j in it["inputs"]]
+                rawmask = it.get("raw") or [False] * len(it["inputs"])
+                ins = [
+                    (self.objs[j].value_node if raw and isinstance(self.objs[j], lsl.Var) else self.objs[j])
+                    for j, raw in zip(it["inputs"], rawmask)
+                ]
                 kwmask = it.get("kw") or [False] * len(ins)
                 pos = [x for x, kw in zip(ins, kwmask) if not kw]
                 kws = {f"k{n}": x for n, (x, kw) in enumerate(zip(ins, kwmask)) if kw}
+                if "user_seed" in it:
+                    kws["seed"] = self.objs[it["user_seed"]]  # the user's own seed input (takes precedence)
                 node = cls(
                     self._fn(i),
                     *pos,
@@ -143,6 +151,11 @@ class Built:
                 else:
                     self.objs.append(node), self.out.append(node)
                 self.cache_node.append(node if k != "tcalc" else None)
+            elif k == "bdist":
+                ins = [self.objs[j] for j in it["inputs"]]
+                d = lsl.Dist(self._dist(i), *ins, _name=(f"x{i}" if it.get("named", True) else ""))
+                d.at = self.out[it["at"]]
+                self.objs.append(d), self.out.append(d), self.cache_node.append(d)
             elif k in ("dist", "tdist"):
                 ins = [self.objs[j] for j in it["inputs"]]
                 dcls = lsl.TransientDist if k == "tdist" else lsl.Dist
@@ -239,7 +252,13 @@ class Built:
             elif k in ("calc", "tcalc", "wvar"):
                 kwmask = it.get("kw") or [False] * len(it["inputs"])
                 args = tuple(vals[j] for j, kw in zip(it["inputs"], kwmask) if not kw) + tuple(vals[j] for j, kw in zip(it["inputs"], kwmask) if kw)
-                vals.append(("c", i, args) if i not in seeds else ("c", i, args, seeds[i]))
+                if "user_seed" in it:
+                    vals.append(("c", i, args, seed_tuple(vals[it["user_seed"]])))
+                else:
+                    vals.append(("c", i, args) if i not in seeds else ("c", i, args, seeds[i]))
+            elif k == "bdist":
+                params = tuple(vals[j] for j in it["inputs"])
+                vals.append(Sym((("d", i, params, vals[it["at"]]),)))
             elif k in ("dist", "tdist"):
                 params = tuple(vals[j] for j in it["inputs"])
                 at = vals[it["var"]]
@@ -260,6 +279,10 @@ class Built:
                     s |= anc[j]
                 if k in ("dist", "tdist"):
                     s |= anc[it["var"]]
+                if k == "bdist":
+                    s |= anc[it["at"]]
+                if "user_seed" in it:
+                    s |= anc[it["user_seed"]]
                 anc.append(s)
         return anc
 
